@@ -24,7 +24,7 @@ UNITS.append(dict(
   mpz_inp_raw_p (&X, cs, &out);
 }''',
     selftest=[('mpz_inp_raw_p', r'\(char \*\) \(xp \+ abs_xsize\) - abs_csize', '(char *) (xp + abs_xsize) - abs_csize - 1'),
-              ('mpz_inp_raw_p', r'csize >= 0 \? abs_xsize : -abs_xsize', 'csize > 0 ? abs_xsize : -abs_xsize')],
+              ('mpz_inp_raw_p', r'csize >= 0 \? abs_xsize : -abs_xsize', 'csize >= 0 ? -abs_xsize : abs_xsize')],
 ))
 rev_inv = '''(0 <= i && i <= (abs_xsize + 1) / 2 && sp == xp + i && ep == xp + (abs_xsize - 1 - i) && xp == V_xp0 && abs_xsize == V_n0
    && ((gk < V_n0 && (gk < i || gk > V_n0 - 1 - i)) ==> xp[gk] == V_BS (V_m))
@@ -42,7 +42,7 @@ UNITS.append(dict(
   mpz_inp_raw_m (&X, &out);
 }''',
     selftest=[('mpz_inp_raw_m', r'i < \(abs_xsize\+1\)/2', 'i < abs_xsize/2'),
-              ('mpz_inp_raw_m', r'\(\(x\)->_mp_size\) >= 0 \? abs_xsize : -abs_xsize', '((x)->_mp_size) > 0 ? abs_xsize : -abs_xsize')],
+              ('mpz_inp_raw_m', r'\(\(x\)->_mp_size\) >= 0 \? abs_xsize : -abs_xsize', '((x)->_mp_size) >= 0 ? abs_xsize : abs_xsize')],
 ))
 UNITS.append(dict(
     name='mpz_inp_raw', props=['C17', 'C04', 'C15'], source='mpz/inp_raw.c', contracts=CT, enforce=['__gmpz_inp_raw'],
@@ -57,4 +57,42 @@ UNITS.append(dict(
   __gmpz_inp_raw (&X, fp);
 }''',
     selftest=[('__gmpz_inp_raw', r'if \(out->writtenSize != 0\)', 'if (out->writtenSize > 8)')],
+))
+
+out_inv = '''(1 <= i && i <= V_n0 && xp == V_xp0 + (V_n0 - i) && bp == V_b0 - 8 * (V_n0 - i) && __CPROVER_same_object (bp, tp)
+   && (i < V_n0 ==> xlimb == V_xp0[V_n0 - i - 1])
+   && (gk < V_n0 - i ==> *(mp_limb_t *) (V_b0 - 8 * (gk + 1)) == V_BS (V_xp0[gk])))'''
+UNITS.append(dict(
+    name='mpz_out_raw_m', props=['C17', 'C04', 'C15'], source='mpz/out_raw.c', contracts=CT, enforce=['mpz_out_raw_m'],
+    functions={'mpz_out_raw_m': dict(
+        inserts=[(r'i = abs_xsize;', r'\g<0> long V_n0 = abs_xsize; mp_srcptr V_xp0 = xp; char *V_b0 = bp;')],
+        loops={0: dict(scalars=['i', 'xlimb'], havoc_targets=['xp', 'bp'],
+                       havoc='{ __CPROVER_assume (1 <= i && i <= V_n0); xp = V_xp0 + (V_n0 - i); bp = V_b0 - 8 * (V_n0 - i); }',
+                       slices=[('tp', 'tsize')], inv=out_inv, dec='i'),
+               1: 'unwind', 2: 'unwind', 3: 'unwind'})},
+    harness='#include "/verif/contracts/alloc_stubs.h"\nvoid h_mpz_out_raw_m (void) {\n  V_INSTALL_ALLOCATOR ();\n' + mpz_obj('X') + '''  __mpir_out_struct out;
+  gk = nondet_long ();
+  mpz_out_raw_m (&out, &X);
+}''',
+    selftest=[('mpz_out_raw_m', r'zeros /= 8;', 'zeros /= 4;'), ('mpz_out_raw_m', r'bp\[-4\] = bytes >> 24;', 'bp[-4] = bytes >> 16;'),
+              ('mpz_out_raw_m', r'xsize >= 0 \? bytes : -bytes', 'xsize > 0 ? -bytes : bytes')],
+))
+FWRITE = '''size_t fwrite (const void *p, size_t size, size_t n, FILE *fp)
+{
+  __CPROVER_assert (size * n == 0 || __CPROVER_r_ok (p, size * n), "[C04][C17] fwrite: source holds size*n readable bytes");
+  size_t put = nondet_ulong (); __CPROVER_assume (put <= n);       /* every failing write position */
+  return put;
+}
+'''
+UNITS.append(dict(
+    name='mpz_out_raw', props=['C17', 'C04', 'C15'], source='mpz/out_raw.c', contracts=CT, enforce=['__gmpz_out_raw'], replace=['mpz_out_raw_m'],
+    cbmc_flags=['--memory-leak-check'],
+    assumptions=['fwrite: ISO C contract (transfers <= n items), modelled by a stub'],
+    functions={'__gmpz_out_raw': {}, 'mpz_out_raw_m': dict(loops={0: 'unwind', 1: 'unwind', 2: 'unwind', 3: 'unwind'})},
+    harness='#include "/verif/contracts/alloc_stubs.h"\n' + FWRITE + 'void h_mpz_out_raw (void) {\n  V_INSTALL_ALLOCATOR ();\n' + mpz_obj('X') + '''  FILE *fp = (FILE *) nondet_ulong ();
+  gk = nondet_long ();
+  __gmpz_out_raw (fp, &X);
+  free (X._mp_d);          /* the harness's own block; anything still allocated after this is a leak of mpz_out_raw */
+}''',
+    selftest=[('__gmpz_out_raw', r'\(out->allocated, out->allocatedSize\)', '(out->allocated, out->writtenSize)')],
 ))
